@@ -29,9 +29,12 @@ type frame struct {
 	onPath   map[*ssa.BasicBlock]bool
 	subst    map[*ssa.Parameter]string
 	callVals map[*ssa.Call][]string
-	defers   []Ev
-	parent   *frame
-	depth    int
+	// the same two in identity terms (pruning keys: two calls are two values)
+	substI    map[*ssa.Parameter]string
+	callValsI map[*ssa.Call][]string
+	defers    []Ev
+	parent    *frame
+	depth     int
 }
 
 // Path is one acyclic control-flow path through a function (DESIGN E3/E6):
@@ -114,6 +117,10 @@ func (p *Prog) frameD(fr *frame, ident bool) *D {
 	}
 	d.Subst = fr.subst
 	d.CallVal = func(c *ssa.Call) []string { return fr.callVals[c] }
+	if ident {
+		d.Subst = fr.substI
+		d.CallVal = func(c *ssa.Call) []string { return fr.callValsI[c] }
+	}
 	return d
 }
 
@@ -121,7 +128,10 @@ func (p *Prog) frameD(fr *frame, ident bool) *D {
 // production code, called statically.
 func (p *Prog) inlinable(c *ssa.CallCommon) *ssa.Function {
 	h := c.StaticCallee()
-	if h == nil || len(h.Blocks) == 0 || h.Parent() != nil || !p.InProd(h) || !IsNewFunc(h) {
+	if h == nil || len(h.Blocks) == 0 || h.Parent() != nil || !p.InProd(h) {
+		return nil
+	}
+	if !IsNewFunc(h) && !p.ForceInline[h] {
 		return nil
 	}
 	return h
@@ -132,12 +142,15 @@ func copyFrame(fr *frame) *frame {
 		return nil
 	}
 	n := &frame{fn: fr.fn, pred: map[*ssa.BasicBlock]*ssa.BasicBlock{}, blocks: append([]*ssa.BasicBlock{}, fr.blocks...),
-		subst: fr.subst, callVals: map[*ssa.Call][]string{}, depth: fr.depth}
+		subst: fr.subst, substI: fr.substI, callVals: map[*ssa.Call][]string{}, callValsI: map[*ssa.Call][]string{}, depth: fr.depth}
 	for k, v := range fr.pred {
 		n.pred[k] = v
 	}
 	for k, v := range fr.callVals {
 		n.callVals[k] = v
+	}
+	for k, v := range fr.callValsI {
+		n.callValsI[k] = v
 	}
 	return n
 }
@@ -161,7 +174,7 @@ func (p *Prog) Paths(fn *ssa.Function) (paths []*Path, complete bool) {
 		done map[*ssa.Function]*frame
 	}
 	st := &state{keys: map[string]bool{}, done: map[*ssa.Function]*frame{}}
-	top := &frame{fn: fn, pred: map[*ssa.BasicBlock]*ssa.BasicBlock{}, onPath: map[*ssa.BasicBlock]bool{}, callVals: map[*ssa.Call][]string{}}
+	top := &frame{fn: fn, pred: map[*ssa.BasicBlock]*ssa.BasicBlock{}, onPath: map[*ssa.BasicBlock]bool{}, callVals: map[*ssa.Call][]string{}, callValsI: map[*ssa.Call][]string{}}
 
 	finish := func(end string, ret *ssa.Return) {
 		if len(paths) >= MaxPaths {
@@ -233,26 +246,30 @@ func (p *Prog) Paths(fn *ssa.Function) (paths []*Path, complete bool) {
 				st.evs = append(st.evs, Ev{x, x.Common(), "call", fr})
 				if h := p.inlinable(x.Common()); h != nil && fr.depth < maxInlineDepth && !onStack(fr, h) {
 					// walk through the new helper in the caller's terms
-					d := p.frameD(fr, false)
-					nf := &frame{fn: h, pred: map[*ssa.BasicBlock]*ssa.BasicBlock{}, onPath: map[*ssa.BasicBlock]bool{}, callVals: map[*ssa.Call][]string{},
-						subst: map[*ssa.Parameter]string{}, parent: fr, depth: fr.depth + 1}
+					d, dI := p.frameD(fr, false), p.frameD(fr, true)
+					nf := &frame{fn: h, pred: map[*ssa.BasicBlock]*ssa.BasicBlock{}, onPath: map[*ssa.BasicBlock]bool{}, callVals: map[*ssa.Call][]string{}, callValsI: map[*ssa.Call][]string{},
+						subst: map[*ssa.Parameter]string{}, substI: map[*ssa.Parameter]string{}, parent: fr, depth: fr.depth + 1}
 					for j, q := range h.Params {
 						if j < len(x.Common().Args) {
 							nf.subst[q] = d.Of(x.Common().Args[j])
+							nf.substI[q] = dI.Of(x.Common().Args[j])
 						}
 					}
 					call, blk, next := x, b, i+1
 					enter(nf, h.Blocks[0], nil, func(ret *ssa.Return) {
 						// helper returned: its results, in the caller's terms
-						var vals []string
+						var vals, valsI []string
 						if ret != nil {
-							hd := p.frameD(nf, false)
+							hd, hdI := p.frameD(nf, false), p.frameD(nf, true)
 							for _, rv := range ret.Results {
 								vals = append(vals, hd.Of(rv))
+								valsI = append(valsI, hdI.Of(rv))
 							}
 						}
 						old, had := fr.callVals[call]
 						fr.callVals[call] = vals
+						oldI, hadI := fr.callValsI[call]
+						fr.callValsI[call] = valsI
 						oldDone, hadDone := st.done[h]
 						st.done[h] = copyFrame(nf)
 						walk(fr, blk, next, k)
@@ -265,6 +282,11 @@ func (p *Prog) Paths(fn *ssa.Function) (paths []*Path, complete bool) {
 							fr.callVals[call] = old
 						} else {
 							delete(fr.callVals, call)
+						}
+						if hadI {
+							fr.callValsI[call] = oldI
+						} else {
+							delete(fr.callValsI, call)
 						}
 					})
 					return
